@@ -88,7 +88,8 @@ class Oblig:
 
 class Loop:
     def __init__(self, invariant=None, decreases=None, index=None, fingerprint=None, ghost_before=None,
-                 ghost_body_start=None, ghost_body_end=None, modifies=None, seq_name=None, hints=None, exit_facts=None, pres_from=None):
+                 ghost_body_start=None, ghost_body_end=None, modifies=None, seq_name=None, hints=None, exit_facts=None, pres_from=None,
+                 assume_before=None):
         self.invariant = invariant or {}
         self.decreases = decreases
         self.index = index
@@ -100,6 +101,7 @@ class Loop:
         self.seq_name = seq_name
         self.hints = hints or []
         self.exit_facts = exit_facts or []
+        self.assume_before = list(assume_before or [])  # DEFINITIONS of ghost arrays over the loop's sequence (recorded as assumptions)
         self.pres_from = pres_from or {}  # invariant name -> labels of anchor assertions: preservation is proved from those facts
         #                                    (plus the quantifier-free path facts) only
 
@@ -1491,7 +1493,11 @@ class Engine:
         if not getattr(self, "prune", True):
             return True
         s = z3.Solver()
-        s.set("timeout", 150)
+        # these quantifier-free checks take milliseconds; giving up only keeps an infeasible path (sound), but which paths are kept decides the
+        # #pN suffixes of obligation names, so the pruning must not depend on how busy the machine is
+        # the budget is a RESOURCE limit (z3's deterministic step counter), not wall time: the same paths are pruned on a busy and on an idle machine
+        s.set("rlimit", int(os.environ.get("PYVC_PRUNE_RLIMIT", "150000")))
+        s.set("timeout", int(os.environ.get("PYVC_PRUNE_TIMEOUT_MS", "5000")))  # backstop only
         stack = list(st.pc)
         while stack:
             f = stack.pop()
@@ -1699,11 +1705,16 @@ class Engine:
                 raise Unsupported("loop #%d `%s` of %s has no invariant in the contract" % (k, head, self.c.func))
             return self.unroll_for(s, st, src, clen if clen is not None else n_unroll)
         idx = lc.index or ("_it%d" % k)
+        if lc.seq_name:
+            st.env[lc.seq_name] = src.as_list_val(self)  # bound first, so that ghost_before / assume_before can mention the sequence
         if lc.ghost_before:
             self.run_ghost(lc.ghost_before, st)
+        for ai_, a_ in enumerate(lc.assume_before):
+            f_ = self.spec_bool(a_, st)
+            st.assume(f_)
+            st.named["loop%d:assume%d" % (k, ai_)] = f_
+            self.assumptions_used.add("assume_before loop %d in %s: %s" % (k, self.c.func, a_[:160]))
         st.env[idx] = IntV(0)
-        if lc.seq_name:
-            st.env[lc.seq_name] = src.as_list_val(self)
         # 1. initialisation (declared locals first bound inside the loop exist, unbound, so that invariants can mention them)
         for nm in self.assigned_names(s.body) | self.assigned_names([ast.Assign(targets=[s.target], value=ast.Constant(value=0))]):
             if nm in self.c.locals and nm not in st.env:
@@ -1731,7 +1742,9 @@ class Engine:
             h.named["loop%d:%s" % (k, name)] = f_
         for hi, e in enumerate(lc.hints):
             self.oblige_spec(h, "hint", "loop%d:hint%d" % (k, hi), e, s)  # a hint must follow from the invariant; then it may be used
-            h.assume(self.spec_bool(e, h))
+            f_ = self.spec_bool(e, h)
+            h.assume(f_)
+            h.named["loop%d:hint%d" % (k, hi)] = f_
         out = []
         # 2a. one more iteration
         b = h.copy()
@@ -1752,9 +1765,16 @@ class Engine:
                         continue
                 self.n_paths += 1
                 for name, e in lc.invariant.items():
-                    if name in lc.pres_from and all(l in s2.named for l in lc.pres_from[name]):
+                    if name in lc.pres_from and (all(l in s2.named for l in lc.pres_from[name] if not l.startswith("!")) or
+                                                  ("!partial" in lc.pres_from[name] and any(l in s2.named for l in lc.pres_from[name]))):
+                        # every named fact is available on this path - or the contract says ("!partial") that the ones available suffice
+                        # the named facts available on THIS path (a path that does not pass an anchor has no fact of that name and does not need it)
                         g = self.spec_bool(e, s2)
-                        hyps = [s2.named[l] for l in lc.pres_from[name]] + [f for f in s2.pc if not _contains_quantifier(f)]
+                        hyps = [s2.named[l] for l in lc.pres_from[name] if l in s2.named]
+                        labels_ = [l for l in lc.pres_from[name] if not l.startswith("!")]
+                        if not ("!noqf" in lc.pres_from[name] and all(l in s2.named for l in labels_)):
+                            # "!noqf": when every named fact is available on this path they suffice on their own
+                            hyps += [f for f in s2.pc if not _contains_quantifier(f)]
                         o = Oblig("%s::inv-pres::loop%d:%s" % (self.c.qual, k, name), "inv-pres", list(self.global_axioms.values()) + hyps, g, s.lineno)
                         o.inputs = self.inputs
                         self.obligs.append(o)
